@@ -20,7 +20,7 @@ EXPLANATION = (
 ASSUMPTIONS = ["thread_data::restore_state / set_state_tagged are compare-exchange based (decided in C01.R2)",
                "agent_ref::suspend/resume forward to execution_agent (virtual dispatch not followed)"]
 THOROUGH_CONFIGS = [["-UNDEBUG", "-DPIKA_DEBUG"]]
-FLOORS = {"C02.R1": 6, "C02.R2": 6, "C02.R3": 4, "C02.R4": 2, "C02.R5": 4, "C02.R6": 5}
+FLOORS = {"C02.R1": 6, "C02.R2": 6, "C02.R3": 4, "C02.R4": 2, "C02.R5": 4, "C02.R6": 5, "C02.R8": 1}
 
 TSS = "pika::threads::detail::thread_schedule_state"
 
@@ -31,6 +31,9 @@ def run(rep, tier):
     rep.rule("C02.R3", "K7/K3: set_thread_state: active => helper task or retry; loop exit only after restore_state; enqueue truth table")
     rep.rule("C02.R4", "K7: set_active_state aborts iff the tag changed; otherwise retries once with retry_on_active")
     rep.rule("C02.R6", "K6 (must-pass-through): every wake-up entry point (execution_agent::do_resume/resume/abort, agent_ref::resume/abort, the join callback pika::resume_thread) reaches its set_thread_state(.., pending, ..) / forwarding call on every path - a wake-up is never filtered by a look at the target's current state (the target may still be 'active' in the window before it finished suspending)")
+    rep.rule("C02.R8", "K5/K8 (sibling writers of the packed state word): the worker itself rewrites the state_ex part of an *active* task's word (set_state_ex in thread_data_stack*::call, "
+             "after it installed 'active'); so the compare-exchange with which the worker publishes the state a task yielded (switch_status::store_state -> restore_state) takes the state_ex "
+             "part of its expected word from a fresh load - an expected word recorded at activation fails after any wake-up whose restart state is not 'signaled' (interrupt/abort), the task stays 'active' for ever and its next wake-up is never delivered")
     rep.rule("C02.R7", "K10 (threshold relation): the retry helper for a wake-up aimed at an 'active' target is an unhinted *staged* task; idle workers convert other queues' staged tasks only when enable_stealing_staged is true, so its idle-count threshold must lie strictly below the bound at which the scheduling loop resets the idle counter (otherwise it is never true and the wake-up waits for one particular, possibly blocked, worker)")
     rep.rule("C02.R5", "K8: execution_agent passes pending/suspended and yields the requested state after recording the worker")
 
@@ -301,3 +304,35 @@ def run(rep, tier):
                     "idle workers never convert another queue's staged tasks, so the set_active_state helper (and with it the wake-up) waits for a worker that may be blocked"
                     % (T(thr), bound_txt))
 
+
+    # ---- R8: publishing the yielded state must tolerate the worker's own set_state_ex
+    TD = facts(rep, lib("thread_pools", "src/scheduled_thread_pool.cpp"),
+               [r"^pika::threads::detail::thread_data::(restore_state|set_state_ex|set_state_tagged)$", r"^pika::threads::detail::thread_data_stack(ful|less)::call$",
+                r"^pika::threads::detail::switch_status::store_state$"])
+    callers = [f for f in TD.find(r"thread_data_stack(ful|less)::call$") if f.parent == -1 and any(e.get("k") == "call" and callee_short(e) == "set_state_ex" for _, _, e in f.all_events())]
+    st_ = [f for f in TD.find(r"switch_status::store_state$") if f.parent == -1]
+    if not st_:
+        raise AnalysisBroken("switch_status::store_state not found")
+    pub = [e for _, _, e in st_[0].all_events() if e.get("k") == "call" and callee_short(e) == "restore_state"]
+    if len(pub) != 1:
+        raise AnalysisBroken("switch_status::store_state: expected one restore_state call")
+    nargs = len(pub[0].get("args") or [])
+    rs = [f for f in TD.find(r"thread_data::restore_state$") if f.parent == -1 and len(f.params) >= 2 and
+          all("thread_state" in (q.get("type") or "") and "schedule" not in (q.get("type") or "") for q in f.params[:2])]
+    if len(rs) != 1:
+        raise AnalysisBroken("thread_data::restore_state(thread_state, thread_state, ...) not found (%d)" % len(rs))
+    rs = rs[0]
+    cas = [e for _, _, e in rs.all_events() if e.get("k") == "call" and callee_short(e).startswith("compare_exchange") and P(e.get("recv")) == "this->current_state_"]
+    if len(cas) != 1:
+        raise AnalysisBroken("thread_data::restore_state: expected one compare-exchange on current_state_")
+    from engine.kinds import derives_from
+    fresh = derives_from(rs, cas[0]["args"][0], lambda t: "this->current_state_.load(" in t)
+    if not callers:
+        rep.ok("C02.R8", rs, "no function rewrites the state_ex of an active task: the recorded word stays exact")
+    elif fresh:
+        rep.ok("C02.R8", rs, "the expected word of the publishing compare-exchange takes its state_ex from a fresh load of current_state_ (%d function(s) rewrite state_ex on an active task)" % len(callers))
+    else:
+        rep.bad("C02.R8", rs, loc_of(cas[0]), "publish-expects-recorded-state-ex",
+                "restore_state(new, old) expects the word exactly as the worker recorded it at activation (%s), but %s rewrites the state_ex part of the active task's word afterwards "
+                "(set_state_ex): whenever the task was resumed with a restart state other than 'signaled' (interrupt, abort) the compare-exchange fails, the scheduling loop drops the task with "
+                "its word stuck at 'active', and the next wake-up aimed at it is never delivered" % (T(cas[0]["args"][0]), ", ".join(sorted(f.qname.rsplit("::", 2)[-2] + "::call" for f in callers))))
